@@ -412,6 +412,14 @@ func genDistr(g *Gen, n int, faults bool) {
 		}
 		emitDistrConfig(g, subs)
 		g.emit("d.setparams")
+		if !dust && sc%5 == 0 {
+			// directed shape (D36): a genesis whose non-burn state carries an empty account id (or the MAIN
+			// type) - its store key would be the burn state's; must be refused by genesis validation
+			n := 1 + g.intn(9)
+			g.emit("d.gstate 0 %s [uc4e=%d000000000000000000]", g.pick("MAIN|%e|0", "INTERNAL_ACCOUNT|%e|0", "MODULE_ACCOUNT|%e|0"), n)
+			g.emit("d.ginit")
+			g.count("shape/genesis-state-empty-id")
+		}
 		if chained {
 			mainA := authtypes.NewModuleAddress(distrtypes.DistributorMainAccount).String()
 			g.emit("d.credit %s [uc4e=%d]", mainA, 1001+g.intn(1000)*3)
